@@ -180,6 +180,35 @@ mut("complex-key-ignores-imag-sign", ["C08", "C03"], "code_data/_constants.py",
 mut("frozenset-key-as-tuple", ["C08"], "code_data/_constants.py",
     "        return frozenset(map(constant_key, value))", "        return tuple(map(constant_key, value))")
 
+# ---- C15
+mut("normalize-version-guarded", ["C15"], "code_data/_normalize.py",
+    "    if isinstance(x, NoArg):\n        return cast(T, NoArg())",
+    "    if isinstance(x, NoArg):\n        import sys\n        return cast(T, NoArg() if sys.version_info < (3, 11) else x)")
+mut("loader-uses-39-api", ["C15"], "code_data/_json_data.py",
+    "        if \"bytes\" in value:\n            return b64decode(value[\"bytes\"])",
+    "        if \"bytes\" in value:\n            return b64decode(value[\"bytes\"].removeprefix(\"=\"))")
+mut("dumper-version-dependent", ["C15"], "code_data/_json_data.py",
+    "    if isinstance(value, bytes):\n        return {\"bytes\": b64encode(value).decode(\"ascii\")}",
+    "    if isinstance(value, bytes):\n        import sys\n        if sys.version_info >= (3, 12) and not value:\n            return {\"bytes\": \"====\"}\n        return {\"bytes\": b64encode(value).decode(\"ascii\")}")
+mut("int-string-threshold-by-version", ["C15"], "code_data/_json_data.py",
+    "        if value < MIN_INTEGER or value > MAX_INTEGER:",
+    "        import sys\n        if value < MIN_INTEGER or value > (MAX_INTEGER if sys.version_info < (3, 9) else MAX_INTEGER + 2):")
+
+# ---- C16
+mut("cli-default-unnormalized", ["C16"], "code_data/_cli.py",
+    "    if not no_normalize:\n        code_data = normalize(code_data)", "    if no_normalize:\n        code_data = normalize(code_data)")
+mut("cli-json-of-unnormalized", ["C16"], "code_data/_cli.py",
+    "    code_data = CodeData.from_code(code)\n    if not no_normalize:\n        code_data = normalize(code_data)",
+    "    code_data = CodeData.from_code(code)\n    raw_code_data = code_data\n    if not no_normalize:\n        code_data = normalize(code_data)\n    CodeData.to_json_data = lambda self, _f=CodeData.to_json_data: _f(raw_code_data)")
+mut("cli-dis-after-original", ["C16"], "code_data/_cli.py",
+    "        res = code_data.to_code()\n", "        res = code_data.to_code() if len(code.co_consts) < 3 else compile('pass', '<string>', 'exec')\n")
+mut("cli-source-count-ge-1", ["C16"], "code_data/_cli.py",
+    "if x is not None]) != 1:", "if x is not None]) < 1:")
+mut("cli-truthiness", ["C16"], "code_data/_cli.py",
+    "    if len([x for x in [file, cmd, mod, eval_] if x is not None]) != 1:", "    if len(list(filter(None, [file, cmd, mod, eval_]))) != 1:")
+mut("cli-eval-wins-over-file", ["C16"], "code_data/_cli.py",
+    "        source = cmd.replace(\"\\\\n\", \"\\n\")", "        source = cmd.replace(\"\\\\n\", \"\\n\").rstrip()")
+
 
 def run_one(m, props_filter):
     name, props, file, old, new = m
